@@ -3,6 +3,7 @@ package rules
 import (
 	"fmt"
 	"go/token"
+	"go/types"
 	"strings"
 
 	"golang.org/x/tools/go/ssa"
@@ -16,8 +17,8 @@ func init() {
 		ID: "C04", Section: "3 C04 (claimed after all: structural clauses only)",
 		Technique: "guard census and value-flow on the least-connection scan: the running best is replaced only on a strictly smaller ratio, the candidate list holds only elements tied with the final best, the comparator is the cross-multiplied ratio difference",
 		Meta: core.Meta{
-			Level: "other",
-			Explanation: "DESIGN.md first listed C04 as not applicable (a minimisation over runtime counters). Three structural necessary conditions are decidable and are claimed instead: (1) in leastConnsBalance the running best is assigned only when it is nil or when compLCWeight(best, e) > 0 (e strictly better), for an element that passed the eligibility filter; (2) every element appended to the returned candidate list is the final best itself (single case) or is guarded by compLCWeight(best, e) == 0 in a second scan that starts after the first scan finished, so all candidates tie with the minimum; both WLC entry points select only from that list (single candidate directly, otherwise smooth/random choice among the tied ones); (3) compLCWeight returns 1/0/-1 by the sign of a.ConnNum()*b.weight - b.ConnNum()*a.weight (cross-multiplication of conn/weight ratios; operand roles checked, factor order free) and reads nothing else. Not covered: that the minimum over the eligible set is actually attained for all counter values (overflow of the products, concurrent counter updates during the scan), fairness among tied candidates. A rewrite of the comparator in another arithmetic form would need this rule to be updated.",
+			Level:       "other",
+			Explanation: "DESIGN.md first listed C04 as not applicable (a minimisation over runtime counters). Three structural necessary conditions are decidable and are claimed instead: (1) in leastConnsBalance the running best is assigned only when it is nil or when compLCWeight(best, e) > 0 (e strictly better), for an element that passed the eligibility filter; (2) every element appended to the returned candidate list is the final best itself (single case) or is guarded by compLCWeight(best, e) == 0 in a second scan that starts after the first scan finished, so all candidates tie with the minimum; both WLC entry points select only from that list (single candidate directly, otherwise smooth/random choice among the tied ones); (3) compLCWeight returns 1/0/-1 by the sign of a.ConnNum()*b.weight - b.ConnNum()*a.weight (cross-multiplication of conn/weight ratios; operand roles checked, factor order free) and reads nothing else. Not covered: that the minimum over the eligible set is actually attained for all counter values (overflow of the products, concurrent counter updates during the scan), fairness among tied candidates. A rewrite of the comparator in another arithmetic form would need this rule to be updated. Robustness: the scan is examined on leastConnsBalance's region (the function, its private helpers, closures) and its variables by role: the running best is a *BackendRR phi (or a helper result/parameter that resolves to one), the single-candidate flag is the boolean phi that guards the append of the best itself, the comparator's operands are its parameters by position; guards are accepted in either spelling/polarity (also compLCWeight(e, best) < 0), through named booleans and predicate helpers; the comparator's returns are checked by the sign of the difference that the branch conditions leave possible, whatever the order of the tests. Not covered after this generalisation: a single-candidate indicator kept in another form than a boolean variable (e.g. a tie counter compared with 0) and a running best kept in a struct field are not followed and are reported.",
 			RuleText:    "obligations = each assignment to the running best, each append to the candidate list, each return of the WLC entry points, the comparator's shape",
 		},
 		Run: runC04,
@@ -27,11 +28,33 @@ func init() {
 			{Name: "comparator-inverted", File: "bfe_balance/bal_slb/bal_rr.go", Old: "	if ret > 0 {\n		return 1\n	}\n\n	// a.backend.ConnNum() / a.weight == b.backend.ConnNum() / b.weight", New: "	if ret < 0 {\n		return 1\n	}\n\n	// a.backend.ConnNum() / a.weight == b.backend.ConnNum() / b.weight", Expect: "comparator"},
 			{Name: "candidates-include-worse", File: "bfe_balance/bal_slb/bal_rr.go", Old: "		if ret := compLCWeight(best, backendRR); ret == 0 {", New: "		if ret := compLCWeight(best, backendRR); ret <= 0 {", Expect: "candidate-tied"},
 			{Name: "single-flag-stale", File: "bfe_balance/bal_slb/bal_rr.go", Old: "		if ret > 0 {\n			best = backendRR\n			singleBackend = true\n		} else if ret == 0 {", New: "		if ret > 0 {\n			best = backendRR\n		} else if ret == 0 {", Expect: "single-flag"},
+			// behaviour-preserving refactorings: the verdict must not change
+			{Name: "silent-tie-predicate-helper", File: "bfe_balance/bal_slb/bal_rr.go", Old: "\t\tif ret := compLCWeight(best, backendRR); ret == 0 {\n\t\t\tcandidates = append(candidates, backendRR)\n\t\t}\n\t}\n\n\treturn candidates, nil\n}\n", New: "\t\tif lcTied(best, backendRR) {\n\t\t\tcandidates = append(candidates, backendRR)\n\t\t}\n\t}\n\n\treturn candidates, nil\n}\n\nfunc lcTied(min, other *BackendRR) bool {\n\treturn compLCWeight(min, other) == 0\n}\n", Silent: true},
+			{Name: "silent-mirrored-better-test", File: "bfe_balance/bal_slb/bal_rr.go", Old: "\t\tret := compLCWeight(best, backendRR)\n\t\tif ret > 0 {\n\t\t\tbest = backendRR\n\t\t\tsingleBackend = true\n\t\t} else if ret == 0 {\n\t\t\tsingleBackend = false\n\t\t}\n", New: "\t\tret := compLCWeight(backendRR, best)\n\t\tif 0 > ret {\n\t\t\tbest = backendRR\n\t\t\tsingleBackend = true\n\t\t} else if 0 == ret {\n\t\t\tsingleBackend = false\n\t\t}\n", Silent: true},
+			{Name: "silent-comparator-switch-ascending", File: "bfe_balance/bal_slb/bal_rr.go", Old: "\tif ret > 0 {\n\t\treturn 1\n\t}\n\n\t// a.backend.ConnNum() / a.weight == b.backend.ConnNum() / b.weight\n\tif ret == 0 {\n\t\treturn 0\n\t}\n\n\treturn -1\n}", New: "\tswitch {\n\tcase ret < 0:\n\t\treturn -1\n\tcase ret == 0:\n\t\t// a.backend.ConnNum() / a.weight == b.backend.ConnNum() / b.weight\n\t\treturn 0\n\t}\n\treturn 1\n}", Silent: true},
+			{Name: "silent-comparator-renamed-commuted", File: "bfe_balance/bal_slb/bal_rr.go", Old: "func compLCWeight(a, b *BackendRR) int {\n\t// compare a.backend.ConnNum() / a.weight and b.backend.ConnNum() / b.weight\n\t// to avoid compare floating num, both multipli a.weight * b.weight\n\tret := a.backend.ConnNum()*b.weight - b.backend.ConnNum()*a.weight\n", New: "func compLCWeight(x, y *BackendRR) int {\n\t// compare x.backend.ConnNum() / x.weight and y.backend.ConnNum() / y.weight\n\t// to avoid compare floating num, both multipli x.weight * y.weight\n\txConns := x.backend.ConnNum()\n\tyConns := y.backend.ConnNum()\n\tret := y.weight*xConns - x.weight*yConns\n", Silent: true},
+			{Name: "silent-single-inverted-else-logging", File: "bfe_balance/bal_slb/bal_rr.go", Old: "\tif singleBackend {\n\t\tcandidates = append(candidates, best)\n\t\treturn candidates, nil\n\t}\n", New: "\tif !singleBackend {\n\t\t// several backends tie: collect them below\n\t} else {\n\t\tif bfe_debug.DebugBal {\n\t\t\tlog.Logger.Debug(\"lc_bal:single backend[%s]\", best.backend.Name)\n\t\t}\n\t\tcandidates = append(candidates, best)\n\t\treturn candidates, nil\n\t}\n", Silent: true},
 		},
 	})
 }
 
+// lcCmpFact: the fact establishes `compLCWeight(a, b) op 0`; returns the call and op.
+func lcCmpFact(f balFact) (call *ssa.Call, op token.Token, ok bool) {
+	o, x, y, isCmp := f.G().Cmp()
+	if !isCmp {
+		return nil, 0, false
+	}
+	if cl, isCall := x.(*ssa.Call); isCall && isZero(y) && core.CallIs(&cl.Call, "bfe_balance/bal_slb.compLCWeight") {
+		return cl, o, true
+	}
+	if cl, isCall := y.(*ssa.Call); isCall && isZero(x) && core.CallIs(&cl.Call, "bfe_balance/bal_slb.compLCWeight") {
+		return cl, balMirror[o], true
+	}
+	return nil, 0, false
+}
+
 func runC04(c *core.Ctx) {
+	defer balAcquire(c.P)()
 	const slb = "bfe_balance/bal_slb"
 	lc := c.P.Func(slb, "leastConnsBalance")
 	cmp := c.P.Func(slb, "compLCWeight")
@@ -41,237 +64,315 @@ func runC04(c *core.Ctx) {
 	}
 	c.Analysed(core.FuncKey(lc), core.FuncKey(cmp))
 	// ---- (3) comparator ------------------------------------------------------------------
-	var ret *ssa.BinOp
-	for _, in := range allInstrs(cmp) {
-		if b, ok := in.(*ssa.BinOp); ok && b.Op == token.SUB {
-			ret = b
-		}
-	}
-	prod := func(v ssa.Value) (conn, weight string, ok bool) {
-		m, isM := v.(*ssa.BinOp)
+	// operands are identified by parameter position (a = #0, b = #1), never by name
+	prod := func(v ssa.Value) (conn, weight int, ok bool) {
+		m, isM := core.StripConv(v).(*ssa.BinOp)
 		if !isM || m.Op != token.MUL {
-			return "", "", false
+			return -1, -1, false
 		}
+		pidx := func(x ssa.Value) int { return balParamOf(c.P, x, cmp) }
 		for _, pair := range [][2]ssa.Value{{m.X, m.Y}, {m.Y, m.X}} {
-			call, isCall := pair[0].(*ssa.Call)
+			call, isCall := core.StripConv(pair[0]).(*ssa.Call)
 			w := fieldLoadOf(pair[1], "weight")
 			if isCall && core.CallIs(&call.Call, "bfe_balance/backend.BfeBackend.ConnNum") && w != nil {
 				if x := fieldLoadOf(call.Call.Args[0], "backend"); x != nil {
-					return core.Render(x), core.Render(w), true
+					return pidx(x), pidx(w), true
 				}
 			}
 		}
-		return "", "", false
+		return -1, -1, false
 	}
+	var ret *ssa.BinOp
 	okShape := false
-	if ret != nil {
-		c1, w1, ok1 := prod(ret.X)
-		c2, w2, ok2 := prod(ret.Y)
-		okShape = ok1 && ok2 && c1 == "a" && w1 == "b" && c2 == "b" && w2 == "a"
+	for _, in := range balRegionInstrs(c.P, cmp) {
+		b, ok := in.(*ssa.BinOp)
+		if !ok || b.Op != token.SUB {
+			continue
+		}
+		c1, w1, ok1 := prod(b.X)
+		c2, w2, ok2 := prod(b.Y)
+		if ok1 && ok2 {
+			ret = b
+			okShape = c1 == 0 && w1 == 1 && c2 == 1 && w2 == 0
+			break
+		}
+		if ret == nil {
+			ret = b
+		}
 	}
 	c.Check("comparator", "compLCWeight:difference", cmp.Pos(), okShape, "compLCWeight must compare a.conn/a.weight with b.conn/b.weight by the cross-multiplied difference a.ConnNum()*b.weight - b.ConnNum()*a.weight")
 	for i, r := range core.Returns(cmp) {
 		v := core.Render(r.Results[0])
-		var want func(g core.Guard) bool
-		switch v {
-		case "1":
-			want = func(g core.Guard) bool {
-				b, ok := g.Cond.(*ssa.BinOp)
-				return ok && b.X == ssa.Value(ret) && isZero(b.Y) && ((b.Op == token.GTR && g.Pol) || (b.Op == token.LEQ && !g.Pol))
+		// the sign of the difference that the branch conditions leave possible at this return
+		sign := map[int]bool{-1: true, 0: true, 1: true}
+		for _, f := range balFactsAt(r.Block()) {
+			op, x, y, ok := f.G().Cmp()
+			if !ok || ret == nil {
+				continue
 			}
-		case "0":
-			want = func(g core.Guard) bool {
-				b, ok := g.Cond.(*ssa.BinOp)
-				return ok && b.X == ssa.Value(ret) && isZero(b.Y) && ((b.Op == token.EQL && g.Pol) || (b.Op == token.NEQ && !g.Pol))
+			if core.StripConv(y) == ssa.Value(ret) && isZero(x) {
+				op, x, y = balMirror[op], y, x
 			}
-		case "-1":
-			// reached when neither > 0 nor == 0
-			gt, eq := false, false
-			for _, g := range core.GuardsAt(r.Block()) {
-				if b, ok := g.Cond.(*ssa.BinOp); ok && b.X == ssa.Value(ret) && isZero(b.Y) && !g.Pol {
-					if b.Op == token.GTR {
-						gt = true
-					}
-					if b.Op == token.EQL {
-						eq = true
-					}
+			if core.StripConv(x) != ssa.Value(ret) || !isZero(y) {
+				continue
+			}
+			for s := -1; s <= 1; s++ {
+				holds := map[token.Token]bool{token.GTR: s > 0, token.GEQ: s >= 0, token.LSS: s < 0, token.LEQ: s <= 0, token.EQL: s == 0, token.NEQ: s != 0}[op]
+				if !holds {
+					delete(sign, s)
 				}
 			}
-			c.Check("comparator", fmt.Sprintf("compLCWeight:return#%d=-1", i), r.Pos(), gt && eq, "compLCWeight must return -1 exactly when the difference is neither > 0 nor == 0")
-			continue
-		default:
+		}
+		want := map[string]int{"1": 1, "0": 0, "-1": -1}
+		w, known := want[v]
+		if !known {
 			c.Check("comparator", fmt.Sprintf("compLCWeight:return#%d", i), r.Pos(), false, "compLCWeight returns "+v+", expected one of 1, 0, -1")
 			continue
 		}
-		c.Check("comparator", fmt.Sprintf("compLCWeight:return#%d=%s", i, v), r.Pos(), core.HasGuard(r.Block(), want), "compLCWeight returns "+v+" under the wrong sign test of the ratio difference; guards: "+strings.Join(core.GuardStrs(r.Block()), " && "))
+		c.Check("comparator", fmt.Sprintf("compLCWeight:return#%d=%s", i, v), r.Pos(), len(sign) == 1 && sign[w], "compLCWeight returns "+v+" under the wrong sign test of the ratio difference; guards: "+strings.Join(core.GuardStrs(r.Block()), " && "))
 	}
 	c.Min("comparator", 4)
-	// ---- (1) running best ------------------------------------------------------------------------
-	// find the phi named best in the first loop and inspect its in-loop incoming edges
+
+	// ---- roles in leastConnsBalance's region -----------------------------------------------------------
+	// The scan may be split over private helpers and its variables may carry any name: the running
+	// best is a phi of type *BackendRR (or a helper result / parameter that resolves to one), the
+	// single-candidate flag is the boolean phi that guards the append of the best itself.
+	regInstrs := balRegionInstrs(c.P, lc)
+	isBackendRRPtr := func(t types.Type) bool { return strings.HasSuffix(core.TypeStr(t), "*"+slb+".BackendRR") }
 	var bestPhis []*ssa.Phi
-	for _, in := range allInstrs(lc) {
-		if phi, ok := in.(*ssa.Phi); ok && phi.Comment == "best" {
+	for _, in := range regInstrs {
+		if phi, ok := in.(*ssa.Phi); ok && isBackendRRPtr(phi.Type()) {
 			bestPhis = append(bestPhis, phi)
 		}
+	}
+	var isBestVal func(v ssa.Value, d int) bool
+	isBestVal = func(v ssa.Value, d int) bool {
+		v = balUp(c.P, v)
+		if d > 4 {
+			return false
+		}
+		switch x := v.(type) {
+		case *ssa.Phi:
+			return isBackendRRPtr(x.Type())
+		case *ssa.Call, *ssa.Extract:
+			_, h, idx := balCallee(x)
+			if h == nil || !balInRegion(c.P, lc, h) {
+				return false
+			}
+			rs := balResults(h, idx)
+			for _, r := range rs {
+				if !isBestVal(r, d+1) {
+					return false
+				}
+			}
+			return len(rs) > 0
+		}
+		return false
+	}
+	// boolPhis: the boolean phis v is made of (through phi edges, helper results and helper parameters)
+	boolPhis := func(v ssa.Value) []*ssa.Phi {
+		var out []*ssa.Phi
+		seen := map[ssa.Value]bool{}
+		var walk func(v ssa.Value, d int)
+		walk = func(v ssa.Value, d int) {
+			v = balUp(c.P, v)
+			if v == nil || seen[v] || d > 8 {
+				return
+			}
+			seen[v] = true
+			switch x := v.(type) {
+			case *ssa.Phi:
+				if balIsBool(x.Type()) {
+					out = append(out, x)
+					for _, e := range x.Edges {
+						walk(e, d+1)
+					}
+				}
+			case *ssa.Call, *ssa.Extract:
+				if _, h, idx := balCallee(x); h != nil && balInRegion(c.P, lc, h) && h.Signature.Results().Len() > 1 {
+					for _, r := range balResults(h, idx) {
+						walk(r, d+1)
+					}
+				}
+			}
+		}
+		walk(v, 0)
+		return out
 	}
 	if len(bestPhis) == 0 {
 		c.Check("best-update", "leastConnsBalance:best", lc.Pos(), false, "the running best of the least-connection scan was not found")
 	}
-	seen := map[string]bool{}
+	// ---- (1) running best ------------------------------------------------------------------------
+	type repl struct {
+		phi *ssa.Phi
+		i   int
+	}
+	var repls []repl
 	n := 0
 	for _, phi := range bestPhis {
 		for i, e := range phi.Edges {
 			pred := phi.Block().Preds[i]
+			e = core.StripConv(e)
 			if isNilConst(e) {
 				continue
 			}
 			if _, isPhi := e.(*ssa.Phi); isPhi {
 				continue
 			}
-			gs := core.GuardsOnEdge(pred, phi.Block())
-			sig := core.Render(e) + "|" + strings.Join(func() []string {
-				var s []string
-				for _, g := range gs {
-					s = append(s, g.Str)
-				}
-				return s
-			}(), "&")
-			if seen[sig] {
-				continue
+			if isBestVal(e, 0) {
+				continue // the best handed on by a helper, not a new element
 			}
-			seen[sig] = true
+			repls = append(repls, repl{phi, i})
 			n++
-			avail, pos := eligibleByGuards(e, gs)
-			better := false
-			for _, g := range gs {
-				// best == nil (first eligible element)
-				if v, nonNil, ok := nilTestOf(g); ok && !nonNil {
-					if p, isP := v.(*ssa.Phi); isP && p.Comment == "best" {
-						better = true
-					}
-				}
-				if b, ok := g.Cond.(*ssa.BinOp); ok && isZero(b.Y) && ((b.Op == token.GTR && g.Pol) || (b.Op == token.LEQ && !g.Pol)) {
-					if call, isCall := b.X.(*ssa.Call); isCall && core.CallIs(&call.Call, slb+".compLCWeight") && sameElem(call.Call.Args[1], e) {
-						if p, isP := call.Call.Args[0].(*ssa.Phi); isP && p.Comment == "best" {
-							better = true
-						}
-					}
-				}
+			elem := e
+			avail, pos := balEligible(elem, balFactsOnEdge(pred, phi.Block()))
+			if !avail || !pos {
+				a2, p2 := balEligibleAt(c.P, elem, pred)
+				avail, pos = avail || a2, pos || p2
 			}
+			better := balEdgeHolds(pred, phi.Block(), func(f balFact) bool {
+				// best == nil (first eligible element)
+				if v, isNil, ok := balNilTest(f); ok && isNil && isBestVal(v, 0) {
+					return true
+				}
+				// compLCWeight(best, e) > 0, or the mirrored compLCWeight(e, best) < 0
+				if call, op, ok := lcCmpFact(f); ok {
+					a0, a1 := call.Call.Args[0], call.Call.Args[1]
+					if op == token.GTR && isBestVal(f.res(a0), 0) && balSame(f, a1, elem) {
+						return true
+					}
+					if op == token.LSS && isBestVal(f.res(a1), 0) && balSame(f, a0, elem) {
+						return true
+					}
+				}
+				return false
+			})
 			c.Check("best-update", fmt.Sprintf("leastConnsBalance:assign#%d", n), pred.Instrs[len(pred.Instrs)-1].Pos(), avail && pos && better,
 				fmt.Sprintf("the running best is replaced by %s on a path where it is not (eligible: avail=%v weight>0=%v) and strictly better (best == nil or compLCWeight(best, e) > 0: %v); a tie or a worse element must not replace the best", core.Render(e), avail, pos, better))
 		}
 	}
 	c.Min("best-update", 2)
-	// ---- single flag: reset to true whenever best changes, false on a tie ----------------------------
-	for _, in := range allInstrs(lc) {
-		phi, ok := in.(*ssa.Phi)
-		if !ok || phi.Comment != "singleBackend" {
-			continue
-		}
-		for i, e := range phi.Edges {
-			k, isK := e.(*ssa.Const)
-			if !isK || k.Value == nil {
-				continue
-			}
-			pred := phi.Block().Preds[i]
-			gs := core.GuardsOnEdge(pred, phi.Block())
-			tie, better := false, false
-			for _, g := range gs {
-				b, ok := g.Cond.(*ssa.BinOp)
-				if !ok || !isZero(b.Y) {
-					continue
-				}
-				if call, isCall := b.X.(*ssa.Call); !isCall || !core.CallIs(&call.Call, slb+".compLCWeight") {
-					continue
-				}
-				if (b.Op == token.EQL && g.Pol) || (b.Op == token.NEQ && !g.Pol) {
-					tie = true
-				}
-				if (b.Op == token.GTR && g.Pol) || (b.Op == token.LEQ && !g.Pol) {
-					better = true
-				}
-			}
-			if k.Value.ExactString() == "false" {
-				c.Check("single-flag", "leastConnsBalance:false", pred.Instrs[len(pred.Instrs)-1].Pos(), tie && !better, "the single-candidate flag is cleared on a path that is not a tie with the running best")
-			}
-		}
-	}
-	// every path on which best is replaced by a strictly better element re-arms the flag: the flag value after such an edge is true
-	for _, phi := range bestPhis {
-		for i, e := range phi.Edges {
-			if isNilConst(e) {
-				continue
-			}
-			if _, isPhi := e.(*ssa.Phi); isPhi {
-				continue
-			}
-			// find the singleBackend phi in the same block and its value on the same edge
-			for _, in := range phi.Block().Instrs {
-				sp, ok := in.(*ssa.Phi)
-				if !ok || sp.Comment != "singleBackend" {
-					continue
-				}
-				c.Check("single-flag", fmt.Sprintf("leastConnsBalance:rearm#%d", i), phi.Pos(), core.Render(sp.Edges[i]) == "true", "when the running best is replaced the single-candidate flag must be re-armed (true); otherwise elements tied with an older, worse best are returned as candidates")
-			}
-		}
-	}
-	c.Min("single-flag", 2)
+
 	// ---- (2) candidates ----------------------------------------------------------------------------------
-	loops := core.Loops(lc)
+	inLoopCtx := func(in ssa.Instruction) bool {
+		for depth := 0; depth < 4; depth++ {
+			if balInLoop(in.Block()) {
+				return true
+			}
+			s := balSingleSite(c.P, in.Parent())
+			if s == nil {
+				return false
+			}
+			in = s.(ssa.Instruction)
+		}
+		return false
+	}
+	flagPhis := map[*ssa.Phi]bool{}
 	nApp := 0
-	for _, in := range allInstrs(lc) {
+	for _, in := range regInstrs {
 		call, ok := in.(*ssa.Call)
 		if !ok {
 			continue
 		}
 		for _, e := range appendedElems(call) {
 			nApp++
-			if p, isP := e.(*ssa.Phi); isP && p.Comment == "best" {
-				// single case: the final best, after the first scan
-				inLoop := false
-				for _, l := range loops {
-					if l.Body[call.Block()] {
-						inLoop = true
+			if isBestVal(e, 0) {
+				// single case: the final best, after the first scan, under the single-candidate flag
+				single := false
+				for _, f := range balFactsCtx(c.P, call.Block()) {
+					if !f.Pol || f.Env != nil {
+						continue
+					}
+					if _, isCmp := f.Cond.(*ssa.BinOp); isCmp {
+						continue
+					}
+					if ps := boolPhis(f.res(f.Cond)); len(ps) > 0 {
+						single = true
+						for _, p := range ps {
+							flagPhis[p] = true
+						}
 					}
 				}
-				single := core.HasGuard(call.Block(), func(g core.Guard) bool {
-					sp, ok := g.Cond.(*ssa.Phi)
-					return ok && g.Pol && sp.Comment == "singleBackend"
-				})
-				c.Check("candidate-tied", fmt.Sprintf("leastConnsBalance:append#%d", nApp), call.Pos(), !inLoop && single, "the best element is returned alone only after the scan finished and under the single-candidate flag")
+				c.Check("candidate-tied", fmt.Sprintf("leastConnsBalance:append#%d", nApp), call.Pos(), !inLoopCtx(call) && single, "the best element is returned alone only after the scan finished and under the single-candidate flag")
 				continue
 			}
-			tied := core.HasGuard(call.Block(), func(g core.Guard) bool {
-				b, ok := g.Cond.(*ssa.BinOp)
-				if !ok || !isZero(b.Y) || !((b.Op == token.EQL && g.Pol) || (b.Op == token.NEQ && !g.Pol)) {
-					return false
-				}
-				cc, isCall := b.X.(*ssa.Call)
-				if !isCall || !core.CallIs(&cc.Call, slb+".compLCWeight") || !sameElem(cc.Call.Args[1], e) {
-					return false
-				}
-				bp, isP := cc.Call.Args[0].(*ssa.Phi)
-				return isP && bp.Comment == "best"
-			})
-			avail, pos := eligibleByGuards(e, core.GuardsAt(call.Block()))
-			// the best compared against is final: the append's loop is not the loop that assigns best
+			elem := e
 			finalBest := true
-			for _, l := range loops {
-				if !l.Body[call.Block()] {
+			tied := false
+			for _, f := range balFactsCtx(c.P, call.Block()) {
+				cc, op, ok := lcCmpFact(f)
+				if !ok || op != token.EQL {
 					continue
 				}
-				for _, phi := range bestPhis {
-					if phi.Block() == l.Header {
-						finalBest = false
+				var bv ssa.Value
+				switch {
+				case balSame(f, cc.Call.Args[1], elem):
+					bv = f.res(cc.Call.Args[0])
+				case balSame(f, cc.Call.Args[0], elem):
+					bv = f.res(cc.Call.Args[1])
+				default:
+					continue
+				}
+				if !isBestVal(bv, 0) {
+					continue
+				}
+				tied = true
+				// the best compared against is final: the append's loop is not a loop that assigns best
+				for _, l := range balLoopsOf(call.Block()) {
+					for _, phi := range bestPhis {
+						if l.Body[phi.Block()] {
+							finalBest = false
+						}
 					}
 				}
 			}
+			avail, pos := balEligibleAt(c.P, elem, call.Block())
 			c.Check("candidate-tied", fmt.Sprintf("leastConnsBalance:append#%d", nApp), call.Pos(), tied && avail && pos && finalBest,
 				fmt.Sprintf("an element is added to the least-connection candidates without being eligible (avail=%v weight>0=%v) and tied with the final best (compLCWeight(best, e) == 0: %v, best final: %v)", avail, pos, tied, finalBest))
 		}
 	}
 	c.Min("candidate-tied", 2)
+
+	// ---- single flag: reset to true whenever best changes, false on a tie ----------------------------
+	for _, in := range regInstrs {
+		phi, ok := in.(*ssa.Phi)
+		if !ok || !flagPhis[phi] {
+			continue
+		}
+		for i, e := range phi.Edges {
+			kv, isK := balConstBool(e)
+			if !isK || kv {
+				continue
+			}
+			pred := phi.Block().Preds[i]
+			tie, better := false, false
+			for _, f := range balFactsOnEdge(pred, phi.Block()) {
+				if _, op, ok := lcCmpFact(f); ok {
+					if op == token.EQL {
+						tie = true
+					}
+					if op == token.GTR {
+						better = true
+					}
+				}
+			}
+			c.Check("single-flag", "leastConnsBalance:false", pred.Instrs[len(pred.Instrs)-1].Pos(), tie && !better, "the single-candidate flag is cleared on a path that is not a tie with the running best")
+		}
+	}
+	// every path on which best is replaced by a strictly better element re-arms the flag: the flag value after such an edge is true
+	for _, rp := range repls {
+		// find the flag phi in the same block and its value on the same edge
+		for _, in := range rp.phi.Block().Instrs {
+			sp, ok := in.(*ssa.Phi)
+			if !ok || !flagPhis[sp] {
+				continue
+			}
+			kv, isK := balConstBool(sp.Edges[rp.i])
+			c.Check("single-flag", fmt.Sprintf("leastConnsBalance:rearm#%d", rp.i), rp.phi.Pos(), isK && kv, "when the running best is replaced the single-candidate flag must be re-armed (true); otherwise elements tied with an older, worse best are returned as candidates")
+		}
+	}
+	c.Min("single-flag", 2)
+
 	// entry points select from the candidates only
 	for _, name := range []string{"BalanceRR.leastConnsSmoothBalance", "BalanceRR.leastConnsSimpleBalance"} {
 		fn := c.P.Func(slb, name)
@@ -280,12 +381,32 @@ func runC04(c *core.Ctx) {
 			continue
 		}
 		c.Analysed(core.FuncKey(fn))
-		lcCalls := core.Calls(fn, slb+".leastConnsBalance")
+		lcCalls := balRegionCalls(c.P, fn, slb+".leastConnsBalance")
 		if len(lcCalls) != 1 {
 			c.Check("wlc-entry", name, fn.Pos(), false, "expected one call of leastConnsBalance")
 			continue
 		}
-		lcCall := lcCalls[0].(*ssa.Call)
+		lcCall, _ := lcCalls[0].(*ssa.Call)
+		// isCand: v is (on every way it is produced) result #0 of the leastConnsBalance call
+		var isCand func(v ssa.Value, d int) bool
+		isCand = func(v ssa.Value, d int) bool {
+			v = balUp(c.P, v)
+			if d > 6 {
+				return false
+			}
+			switch x := v.(type) {
+			case *ssa.Extract:
+				return lcCall != nil && x.Tuple == ssa.Value(lcCall) && x.Index == 0
+			case *ssa.Phi:
+				for _, e := range x.Edges {
+					if e != ssa.Value(x) && !isCand(e, d+1) {
+						return false
+					}
+				}
+				return true
+			}
+			return false
+		}
 		for i, r := range core.Returns(fn) {
 			rv := core.RetVals(r)
 			if isNilConst(rv[0]) {
@@ -294,17 +415,13 @@ func runC04(c *core.Ctx) {
 			s := core.Render(rv[0])
 			fromCand := false
 			if x := fieldLoadOf(rv[0], "backend"); x != nil {
-				if u, ok := x.(*ssa.UnOp); ok {
-					if ia, ok := u.X.(*ssa.IndexAddr); ok {
-						if ex, ok := ia.X.(*ssa.Extract); ok && ex.Tuple == ssa.Value(lcCall) && ex.Index == 0 {
-							fromCand = true
-						}
-					}
+				if list, _ := balElemOfList(x); list != nil && isCand(list, 0) {
+					fromCand = true
 				}
 			}
-			if ex, ok := rv[0].(*ssa.Extract); ok {
+			if ex, ok := core.StripConv(rv[0]).(*ssa.Extract); ok {
 				if call, ok := ex.Tuple.(*ssa.Call); ok && (core.CallIs(&call.Call, slb+".smoothBalance") || core.CallIs(&call.Call, slb+".randomBalance")) {
-					if a, ok := call.Call.Args[0].(*ssa.Extract); ok && a.Tuple == ssa.Value(lcCall) && a.Index == 0 {
+					if isCand(call.Call.Args[0], 0) {
 						fromCand = true
 					}
 				}
